@@ -595,3 +595,28 @@ func VerifC06JSONRoundTrip() {
 	verifAssert(err != nil, "C06/json-to-yaml-made-more-than-one-document"+class)
 	verifCover("C06/json-roundtrip/end")
 }
+
+// VerifC06WideIntsOutside: integers in the window the symbolic harness above reaches with one digit only, as whole
+// texts: decimal and hex spellings from 2^63 to 2^64-1 (what yaml.v3 still resolves as !!int) are refused by the JSON
+// encoding - directly, inside a sequence, and through an alias - never written as a rounded number.
+func VerifC06WideIntsOutside() {
+	texts := []string{"9223372036854775808", "9223372036854775809", "12345678901234567890", "18446744073709551615", "18446744073709551614", "10000000000000000000", "0x8000000000000000", "0xffffffffffffffff", "0o1000000000000000000000", "0xFFFFFFFFFFFFFFFF"}
+	text := texts[verifChoice("text", len(texts))]
+	var doc *CandidateNode
+	switch verifChoice("place", 3) {
+	case 0:
+		doc = vDoc(vMap(vStr("k"), vInt(text)))
+	case 1:
+		doc = vDoc(vSeq(vInt("1"), vInt(text)))
+	default:
+		x := vInt(text)
+		x.Anchor = "x"
+		doc = vDoc(vMap(vStr("k"), x, vStr("j"), &yaml.Node{Kind: yaml.AliasNode, Value: "x", Alias: x}))
+	}
+	b, err := doc.MarshalJSON()
+	if err == nil {
+		verifObserve("json", string(b))
+	}
+	verifAssert(err != nil, "C06/integer-outside-int64-encoded-as-another-number text="+text)
+	verifCover("C06/wide-outside/end")
+}
